@@ -1,6 +1,7 @@
 import DnpProofs.Lemmas.Align
 import DnpProofs.Lemmas.Store
 import DnpProofs.Lemmas.Consistent2
+import DnpProofs.Lemmas.ProcValid
 import DnpModel.Proc.Core
 set_option linter.unusedSectionVars false
 /-!
@@ -318,6 +319,37 @@ theorem proc_mapAlong_valid (sc : Scalars κ α) (dim : String) (h : List α →
       simp only [mapAxis, Arr.ofFn_shape, hm rfl d hd hdm, ext]
       exact setAt_self _ _ _ (by rw [hd.shape_len]; exact index_lt hdm)
   · simp [mapAlong, hdm] at hr
+
+/-- "… every processing function": each processing function of the model, with ANY external numerics plugged in (window
+    values, phase factor tables, optimiser / filter tables, DFT twiddles), satisfies the `proc` side condition of
+    `step_inv` — so `run_inv` covers arbitrary pipelines of them mixed with every other operation -/
+theorem model_procs_valid (sc : Scalars κ α) (A : Arith κ α) (obj out : Nat) (dim : String) :
+    (∀ valid kind keys w, OpValid sc (.proc (fun d => d.apodize A valid dim kind keys w) obj out)) ∧
+    (∀ cis, OpValid sc (.proc (fun d => d.phase A sc.arange dim cis) obj out)) ∧
+    (∀ cis, OpValid sc (.proc (fun d => d.autophase A sc.arange dim cis) obj out)) ∧
+    (∀ rp ni, OpValid sc (.proc (fun d => d.phaseCycle A dim rp ni) obj out)) ∧
+    (∀ zff shift ppm tw, OpValid sc (.proc (fun d => d.fourierTransform A dim zff shift ppm tw) obj out)) ∧
+    (∀ zff shift ppm tw, OpValid sc (.proc (fun d => d.inverseFourierTransform A dim zff shift ppm tw) obj out)) ∧
+    OpValid sc (.proc (fun d => integrateAll A d dim) obj out) ∧
+    OpValid sc (.proc (fun d => d.cumulativeIntegrate A dim) obj out) ∧
+    (∀ n, OpValid sc (.proc (fun d => d.leftShift A sc.dist dim n) obj out)) ∧
+    (∀ shift, OpValid sc (.proc (fun d => d.reference A dim shift) obj out)) ∧
+    (∀ od, OpValid sc (.proc (fun d => d.normalize A sc.arange od) obj out)) ∧
+    (∀ newc, OpValid sc (.proc (fun d => d.interp A sc.arange dim newc) obj out)) ∧
+    (∀ mean ax, OpValid sc (.proc (fun d => d.average mean ax) obj out)) := by
+  refine ⟨fun valid kind keys w d r hd hr => apodize_consistent A valid keys w hd hr,
+    fun cis d r hd hr => phase_consistent A sc.arange cis hd hr,
+    fun cis d r hd hr => autophase_consistent A sc.arange cis hd hr,
+    fun rp ni d r hd hr => phaseCycle_consistent A rp ni hd hr,
+    fun zff shift ppm tw d r hd hr => fourierTransform_consistent A zff shift ppm tw hd hr,
+    fun zff shift ppm tw d r hd hr => inverseFourierTransform_consistent A zff shift ppm tw hd hr,
+    fun d r hd hr => integrateAll_consistent A hd hr,
+    fun d r hd hr => cumulativeIntegrate_consistent A hd hr,
+    fun n d r hd hr => leftShift_consistent A sc.dist n hd hr,
+    fun shift d r hd hr => reference_consistent A shift hd hr,
+    fun od d r hd hr => normalize_consistent A sc.arange od hd hr,
+    fun newc d r hd hr => interp_consistent A sc.arange newc hd hr,
+    fun mean ax d r hd hr => average_consistent mean ax hd hr⟩
 
 /-- a 3-D witness with pairwise distinct extents (non-vacuity of the hypotheses above) and the
     defect the pinned `sort_dims` had on it -/
